@@ -1004,3 +1004,8 @@ for _p in ("C13", "C16"):
     PROPS[_p]["kani_units"] = list(PROPS[_p]["kani_units"]) + ["U63"]
     PROPS[_p]["claim"] = PROPS[_p]["claim"] + " Head of a log file (Kani, bounded: lengths 0 / 1 / 8 / 9, contents arbitrary): Log::open_log_file reports a file that ends before its first record header is complete as holding no record (Log::open then discards it: a crash while the first record was being appended must not make every later open fail), reports a read failure other than a clean end of file, and otherwise returns the record id the header holds with the file rewound for replay."
 PROPS["C13"]["does_not_cover"] = [x.replace(" and the first-record-id read of open_log_file", "") for x in PROPS["C13"]["does_not_cover"]]
+
+# ---------------------------------------------------------------- U64 (Verus fragment of iter_inner: which backend candidate enters the merge step)
+UNIT_META["iter_merge"]["functions"] = UNIT_META["iter_merge"]["functions"] + ["btree::iter::BTreeIterator::iter_inner (fragment: from the release of the commit-overlay guard to the merge step -- use of the parked lookahead)"]
+UNIT_META["iter_merge"]["assumes"] = UNIT_META["iter_merge"]["assumes"] + ["`pending_backend.take().and_then(|pending| ..)` (a closure) becomes the contract take_pending_for (literal shape rewrite); BTreeIterator::next_backend is a contract here (a step on the tree as of the record: unit iter_reposition)"]
+PROPS["C04"]["claim"] = PROPS["C04"]["claim"] + " Parked lookahead (Verus, fragment of iter_inner): the item fetched from the tree but not returned yet is the backend candidate of the next step only if no record was logged since it was fetched and the step goes in the same direction; otherwise the candidate is fetched afresh on the current tree; either way the parked item is consumed."
